@@ -249,12 +249,16 @@ def handleRgm (l : Line) : Verdict :=
       let mrm := idxs.map (fun (i : Nat) => rowGroupMatches rd (i : Int) col op probe)
       let mo := [rowGroupMatches rd (-1) col op probe, rowGroupMatches rd (groups.length : Int) col op probe]
       let mf := filterRowGroups rd col op probe maxIdx
-      -- property, from what the real code returned
-      let perGroup := (((groups.zip (hm.zip (mn.zip mx))).zip mm).zip cst)
+      -- property: a group holding a matching row may be pruned only if the statistics STORED in the file are
+      -- not true bounds of its rows.  The stored bounds are taken through the model of column_statistics
+      -- (new fields if complete, else the deprecated pair), not from what the real code returned: a reader
+      -- that mis-reads true statistics is not excused.
+      let perGroup := ((groups.zip mcs).zip mm)
       let sound := perGroup.all (fun x =>
-        let g := x.1.1.1; let h := x.1.1.2.1; let lo := x.1.1.2.2.1; let hi := x.1.1.2.2.2; let m := x.1.2; let c := x.2
+        let g := x.1.1; let cs := x.1.2; let m := x.2
         col != 0 || m == 1 || !(anySat t op probe g.1) ||
-          (c == Gen.statusOk && h == 1 && !(trueBoundsB t { min := some lo, max := some hi } g.1)))
+          (statusCode cs.1 == Gen.statusOk && cs.2.hasMinMax &&
+            !(trueBoundsB t { min := some cs.2.minValue, max := some cs.2.maxValue } g.1)))
       let expected := (idxs.zip (st.zip mm)).filter (fun x => x.2.1 != Gen.statusOk || x.2.2 == 1) |>.map (·.1)
       let filterExact := if maxIdx ≤ 0 then fr < 0 else (fi == takeCap maxIdx.toNat expected && fr == (fi.length : Int))
       verdict
